@@ -4,7 +4,8 @@
 // three groups of parts (-DC13_PART_<PART>..., -DC13_GEN_HEADER="...") x two optimisation levels (-O2 / -O0 appended
 // after bin/check's -O1).  Parts: CM64 CM32 CMLD (cmath double/float/long double), INT8 NUM8 (8-bit exhaustive: cctype,
 // bit, numeric), W1632 W64 (wider integers, bit_cast), CSTR (C strings, string_view, char_traits), SCEN (constexpr digests
-// of container / string / charconv / algorithm / chrono / bitset histories), WSTR (every character type: char_traits,
+// of container / string / charconv / algorithm / chrono / bitset histories, float-element ranges), CONT (flat_set /
+// static_set / static_vector / inplace_string / sorted array at every fill up to full capacity x key sweep), WSTR (every character type: char_traits,
 // string_view, inplace_string, strn*/wcsn*/wmem* on exact-size unterminated arrays).
 //
 // For every obligation (function F, argument tuple a):
@@ -41,7 +42,10 @@
 #include <etl/cstdlib.hpp>
 #include <etl/cstring.hpp>
 #include <etl/cwchar.hpp>
+#include <etl/flat_set.hpp>
+#include <etl/functional.hpp>
 #include <etl/numeric.hpp>
+#include <etl/set.hpp>
 #include <etl/string.hpp>
 #include <etl/string_view.hpp>
 #include <etl/vector.hpp>
@@ -571,9 +575,23 @@ constexpr auto fma_dom(T x, T y, T z) -> bool
 template <typename T>
 constexpr auto fdim_dom(T x, T y) -> bool
 {
+    // x <= y: the answer is +0 and nothing may be subtracted; same sign: x - y cannot overflow
     constexpr auto half = std::numeric_limits<T>::max() / 2;
-    if (is_fin(x) && is_fin(y)) { return mag(x) < half && mag(y) < half; }
+    if (is_fin(x) && is_fin(y)) { return x <= y || ((x < 0) == (y < 0)) || (mag(x) < half && mag(y) < half); }
     return true;
+}
+// lerp: finite end points; 0 <= t <= 1 (every intermediate of a correct implementation stays between the end points, even for
+// -max .. +max), or moderate magnitudes with any moderate t (extrapolation)
+template <typename T>
+constexpr auto lerp_dom(T a, T b, T t) -> bool
+{
+    if (!is_fin(a) || !is_fin(b) || !is_fin(t)) { return false; }
+    if (t >= 0 && t <= 1) { return true; }
+    constexpr auto emax = sizeof(T) == 4 ? 127 : 1023;
+    auto const ea = a == 0 ? 0 : expo(a);
+    auto const eb = b == 0 ? 0 : expo(b);
+    auto const et = expo(t);
+    return ea < emax / 2 && eb < emax / 2 && et < 30;
 }
 template <typename T>
 constexpr auto midpoint_dom(T x, T y) -> bool { return !(is_inf(x) && is_inf(y) && ((x < 0) != (y < 0))); }
@@ -631,6 +649,7 @@ auto remainder_excl(T x, T y) -> char const* { return formula_excl(x, y, rt_rema
         C13_FN2(remainder_##S, "remainder." #S, "cmath", T, T, (y != 0 && !is_inf(x)), remainder_excl(x, y), etl::remainder(x, y))                                  \
         C13_FN2(nextafter_##S, "nextafter." #S, "cmath", T, T, true, kNoTag, etl::nextafter(x, y))                                               \
         C13_FN2(midpoint_##S, "midpoint." #S, "cmath", T, T, midpoint_dom(x, y), kNoTag, etl::midpoint(x, y))                                                  \
+        C13_FN3(lerp_##S, "lerp." #S, "cmath", T, T, T, lerp_dom(x, y, z), kNoTag, etl::lerp(x, y, z))                                             \
         C13_FN3(fma_##S, "fma." #S, "cmath", T, T, T, fma_dom(x, y, z), fma_excl(x, y, z), etl::fma(x, y, z))
 #endif
 #if defined(C13_PART_CM64)
@@ -976,8 +995,8 @@ C13_FN2(wmemset_x, "wmemset", "wstring", WUnit<wchar_t>, Cnt, true, kNoTag,
     #define C13_HAVE_PART 1
 #endif
 
-// ================================================================== scenario digests
-#if defined(C13_PART_SCEN)
+// ================================================================== scenario digests (SCEN) and full-capacity container probes (CONT)
+#if defined(C13_PART_SCEN) || defined(C13_PART_CONT)
 // A scenario is a constexpr function that derives a fixed-length, valid-by-construction operation history from a 64-bit
 // seed, runs it on the etl type and folds every observable (sizes, elements, return values, error codes) into a hash.
 // The obligation is: hash computed by the compiler == hash computed at run time from the laundered seed, and the history
@@ -1476,6 +1495,305 @@ constexpr auto ranges(u64 seed) -> u64
     }
     return h.h;
 }
+// element-wise algorithms and containers over FLOATING-POINT elements: equal values with different representations
+// (+0.0 / -0.0), identical representations that are unequal (NaN), infinities, denormals.  Equality-based operations
+// see the whole alphabet; ordering-based ones (the comparator must be a strict weak order) see it without NaN.
+template <typename T>
+constexpr auto franges(u64 seed) -> u64
+{
+    using L = std::numeric_limits<T>;
+    T const eqa[16]  = {T(0), -T(0), L::quiet_NaN(), -L::quiet_NaN(), L::infinity(), -L::infinity(), L::denorm_min(), -L::denorm_min(), T(1), T(-1), L::max(),
+         L::lowest(), L::min(), T(0.5), T(2), T(3)};
+    T const orda[16] = {T(0), -T(0), T(1.5), T(-2.5), L::infinity(), -L::infinity(), L::denorm_min(), -L::denorm_min(), T(1), T(-1), L::max(), L::lowest(),
+        L::min(), T(0.5), T(2), T(3)};
+    Rng r{seed};
+    Hash h;
+    auto bits  = [](T v) { return res(v); };                          // NaN folded, the sign of a zero kept
+    auto value = [](T v) { return v == 0 ? u64{0} : res(v); };        // for results where "which of two equal elements" is unspecified
+    auto twin  = [&](T v) { return (v == 0 && r.below(2) == 0) ? -v : v; }; // the equal value with the other representation
+    {
+        etl::array<T, 6> a{};
+        etl::array<T, 6> b{};
+        auto const n1 = r.below(7);
+        auto const n2 = r.below(7);
+        auto const cp = r.below((n1 < n2 ? n1 : n2) + 1);
+        for (std::size_t i = 0; i < 6; ++i) { a[i] = eqa[r.below(16)]; }
+        for (std::size_t i = 0; i < 6; ++i) { b[i] = i < cp ? twin(a[i]) : eqa[r.below(16)]; }
+        if (r.below(4) == 0) {
+            for (std::size_t i = cp; i < 6; ++i) { b[i] = twin(a[i]); } // completely "equal" ranges
+        }
+        auto* const af = a.data();
+        auto* const bf = b.data();
+        auto const m   = n1 < n2 ? n1 : n2;
+        auto const v   = eqa[r.below(16)];
+        h.add(etl::equal(af, af + m, bf));
+        h.add(etl::equal(af, af + n1, bf, bf + n2));
+        h.add(etl::equal(af, af + cp, bf, bf + cp));
+        h.add(etl::equal(af, af + n1, af));
+        h.add(etl::equal(a.begin(), a.end(), b.begin()));
+        h.add(etl::mismatch(af, af + m, bf).first - af);
+        h.add(etl::find(af, af + n1, v) - af);
+        h.add(etl::count(af, af + n1, v));
+        h.add(etl::search(af, af + n1, bf, bf + (n2 < 2 ? n2 : 2)) - af);
+        h.add(etl::find_end(af, af + n1, bf, bf + (n2 < 2 ? n2 : 2)) - af);
+        h.add(etl::find_first_of(af, af + n1, bf, bf + n2) - af);
+        h.add(etl::adjacent_find(af, af + n1) - af);
+        h.add(etl::search_n(af, af + n1, 2, v) - af);
+        h.add(etl::is_permutation(af, af + m, bf));
+        h.add(a == b);
+        h.add(a != b);
+        h.add(a == a);
+        etl::static_vector<T, 6> const va(af, af + n1);
+        etl::static_vector<T, 6> const vb(bf, bf + n2);
+        h.add(va == vb);
+        h.add(va != vb);
+        h.add(va == va);
+        {
+            auto c = a;
+            auto* e = etl::remove(c.data(), c.data() + n1, v);
+            h.add(e - c.data());
+            for (auto* q = c.data(); q != e; ++q) { h.add(bits(*q)); }
+            auto d = a;
+            etl::replace(d.data(), d.data() + n1, v, T(42));
+            for (auto q : d) { h.add(bits(q)); }
+            auto u  = b;
+            auto* ue = etl::unique(u.data(), u.data() + n2);
+            h.add(ue - u.data());
+            for (auto* q = u.data(); q != ue; ++q) { h.add(value(*q)); }
+            etl::array<T, 6> w{};
+            etl::copy(af, af + n1, w.data());
+            for (auto q : w) { h.add(bits(q)); }
+        }
+    }
+    {
+        etl::array<T, 6> c{};
+        etl::array<T, 6> d{};
+        auto const n1 = r.below(7);
+        auto const n2 = r.below(7);
+        auto const cp = r.below((n1 < n2 ? n1 : n2) + 1);
+        for (std::size_t i = 0; i < 6; ++i) { c[i] = orda[r.below(16)]; }
+        for (std::size_t i = 0; i < 6; ++i) { d[i] = i < cp ? twin(c[i]) : orda[r.below(16)]; }
+        auto* const cf = c.data();
+        auto* const df = d.data();
+        auto const v   = orda[r.below(16)];
+        h.add(etl::lexicographical_compare(cf, cf + n1, df, df + n2));
+        h.add(etl::lexicographical_compare(df, df + n2, cf, cf + n1));
+        h.add(c < d);
+        h.add(c <= d);
+        h.add(c > d);
+        h.add(etl::min_element(cf, cf + n1) - cf);
+        h.add(etl::max_element(cf, cf + n1) - cf);
+        auto const mme = etl::minmax_element(df, df + n2);
+        h.add(mme.first - df);
+        h.add(mme.second - df);
+        h.add(etl::is_sorted(cf, cf + n1));
+        h.add(etl::is_sorted_until(cf, cf + n1) - cf);
+        h.add(bits(etl::min(c[0], d[0])));
+        h.add(bits(etl::max(c[1], d[1])));
+        h.add(bits(etl::clamp(v, etl::min(c[2], d[2]), etl::max(c[2], d[2]))));
+        auto st = c;
+        etl::stable_sort(st.data(), st.data() + n1);
+        for (std::size_t i = 0; i < n1; ++i) { h.add(bits(st[i])); }
+        auto so = c;
+        etl::sort(so.data(), so.data() + n1);
+        for (std::size_t i = 0; i < n1; ++i) { h.add(value(so[i])); }
+        h.add(etl::lower_bound(so.data(), so.data() + n1, v) - so.data());
+        h.add(etl::upper_bound(so.data(), so.data() + n1, v) - so.data());
+        h.add(etl::binary_search(so.data(), so.data() + n1, v));
+        etl::static_set<T, 6> const s1(cf, cf + n1);
+        etl::static_set<T, 6> const s2(df, df + n2);
+        h.add(s1.size());
+        h.add(s1 == s2);
+        h.add(s1 != s2);
+        h.add(s1 == s1);
+        h.add(s1.contains(v));
+        h.add(s1.find(v) - s1.begin());
+        h.add(s1.lower_bound(v) - s1.begin());
+        for (auto q : s1) { h.add(bits(q)); }
+        using FS = etl::flat_set<T, etl::static_vector<T, 6>>;
+        FS const f1(cf, cf + n1);
+        FS const f2(df, df + n2);
+        h.add(f1.size());
+        h.add(f1 == f2);
+        h.add(f1 == f1);
+        h.add(f1 < f2);
+        h.add(f1.contains(v));
+        h.add(f1.find(v) - f1.begin());
+        h.add(f1.upper_bound(v) - f1.begin());
+        for (auto q : f1) { h.add(bits(q)); }
+    }
+    return h.h;
+}
+
+// searches in containers AT FULL CAPACITY (and every smaller fill): elements are the values 10*(i+1) of the set bits of
+// `mask`, the key sweeps 5, 10, 15 .. 45: smaller than every element, each element, absent in the middle, greater than every
+// element.  With size() == capacity, end() is one past the storage: a read through it is not a constant expression.
+constexpr auto mask_count(u64 mask) -> std::size_t { return static_cast<std::size_t>(__builtin_popcountll(mask & 15U)); }
+template <typename S>
+constexpr auto set_probe(u64 mask, u64 keyi) -> u64
+{
+    Hash h;
+    S s;
+    if ((keyi & 1U) != 0) { // insertion order: ascending or descending
+        for (int i = 0; i < 4; ++i) {
+            if (((mask >> i) & 1U) != 0) { s.insert(10 * (i + 1)); }
+        }
+    } else {
+        for (int i = 3; i >= 0; --i) {
+            if (((mask >> i) & 1U) != 0) { s.insert(10 * (i + 1)); }
+        }
+    }
+    S const& cs    = s;
+    auto const key = static_cast<int>(5 * keyi + 5);
+    h.add(cs.size());
+    h.add(cs.find(key) - cs.begin());
+    h.add(s.find(key) - s.begin());
+    h.add(cs.contains(key));
+    h.add(cs.count(key));
+    h.add(cs.lower_bound(key) - cs.begin());
+    h.add(s.lower_bound(key) - s.begin());
+    h.add(cs.upper_bound(key) - cs.begin());
+    h.add(s.upper_bound(key) - s.begin());
+    if constexpr (requires { typename S::key_compare::is_transparent; }) { // heterogeneous overloads
+        auto const lk = static_cast<long>(key);
+        h.add(cs.find(lk) - cs.begin());
+        h.add(s.find(lk) - s.begin());
+        h.add(cs.contains(lk));
+        h.add(cs.count(lk));
+        h.add(cs.lower_bound(lk) - cs.begin());
+        h.add(cs.upper_bound(lk) - cs.begin());
+    }
+    for (auto v : cs) { h.add(v); }
+    auto t = s;
+    h.add(t == cs);
+    h.add(t.erase(key));
+    h.add(t.size());
+    h.add(t == cs);
+    h.add(t < cs);
+    if (t.size() < t.max_size()) {
+        auto const ins = t.insert(key);
+        h.add(ins.second);
+        h.add(ins.first - t.begin());
+        h.add(t.contains(key));
+    }
+    for (auto v : t) { h.add(v); }
+    return h.h;
+}
+template <typename S>
+constexpr auto flat_probe(u64 mask, u64 keyi) -> u64
+{
+    auto h = set_probe<S>(mask, keyi);
+    S s;
+    for (int i = 0; i < 4; ++i) {
+        if (((mask >> i) & 1U) != 0) { s.insert(10 * (i + 1)); }
+    }
+    S const& cs    = s;
+    auto const key = static_cast<int>(5 * keyi + 5);
+    auto const er  = cs.equal_range(key);
+    auto const er2 = s.equal_range(key);
+    return h ^ (static_cast<u64>(er.first - cs.begin()) * 7 + static_cast<u64>(er.second - cs.begin()) * 63 + static_cast<u64>(er2.first - s.begin()) * 511
+                   + static_cast<u64>(er2.second - s.begin()) * 4095);
+}
+// the same sweep over an exact-size sorted array (a transient allocation of exactly size() elements)
+constexpr auto sorted_array_probe(u64 mask, u64 keyi) -> u64
+{
+    Hash h;
+    auto const n = mask_count(mask);
+    auto* p      = new int[n];
+    std::size_t k = 0;
+    for (int i = 0; i < 4; ++i) {
+        if (((mask >> i) & 1U) != 0) { p[k++] = 10 * (i + 1); }
+    }
+    auto const key = static_cast<int>(5 * keyi + 5);
+    int const* f   = p;
+    int const* l   = p + n;
+    h.add(etl::lower_bound(f, l, key) - f);
+    h.add(etl::upper_bound(f, l, key) - f);
+    auto const er = etl::equal_range(f, l, key);
+    h.add(er.first - f);
+    h.add(er.second - f);
+    h.add(etl::binary_search(f, l, key));
+    h.add(etl::find(f, l, key) - f);
+    h.add(etl::count(f, l, key));
+    h.add(etl::partition_point(f, l, [key](int v) { return v < key; }) - f);
+    h.add(etl::is_sorted_until(f, l) - f);
+    h.add(etl::adjacent_find(f, l) - f);
+    h.add(etl::search_n(f, l, 1, key) - f);
+    h.add(etl::find_if(f, l, [key](int v) { return v > key; }) - f);
+    h.add(etl::find_if_not(f, l, [key](int v) { return v < key; }) - f);
+    h.add(etl::min_element(f, l) - f);
+    h.add(etl::max_element(f, l) - f);
+    h.add(etl::includes(f, l, &key, &key + 1));
+    h.add(etl::lower_bound(f, l, key, etl::less<>()) - f);
+    h.add(etl::upper_bound(f, l, key, etl::less<>()) - f);
+    delete[] p;
+    return h.h;
+}
+// a full (and partly filled) static_vector and inplace_string searched up to their end
+template <std::size_t N>
+constexpr auto vector_probe(u64 mask, u64 keyi) -> u64
+{
+    Hash h;
+    etl::static_vector<int, N> v;
+    for (int i = 0; i < 4; ++i) {
+        if (((mask >> i) & 1U) != 0) { v.push_back(10 * (i + 1)); }
+    }
+    auto const& cv  = v;
+    auto const key = static_cast<int>(5 * keyi + 5);
+    h.add(etl::find(cv.begin(), cv.end(), key) - cv.begin());
+    h.add(etl::lower_bound(cv.begin(), cv.end(), key) - cv.begin());
+    h.add(etl::upper_bound(cv.begin(), cv.end(), key) - cv.begin());
+    h.add(etl::binary_search(cv.begin(), cv.end(), key));
+    h.add(etl::count(cv.begin(), cv.end(), key));
+    h.add(etl::find(cv.rbegin(), cv.rend(), key) - cv.rbegin());
+    if (!cv.empty()) { h.add(cv.front() + cv.back() + cv[cv.size() - 1]); }
+    auto w = v;
+    h.add(w == cv);
+    auto const it = etl::find(w.begin(), w.end(), key);
+    if (it != w.end()) { h.add(w.erase(it) - w.begin()); }
+    if (!w.full()) { h.add(*w.insert(etl::lower_bound(w.begin(), w.end(), key), key)); }
+    for (auto x : w) { h.add(x); }
+    return h.h;
+}
+template <std::size_t N>
+constexpr auto string_probe(u64 mask, u64 keyi) -> u64
+{
+    Hash h;
+    etl::inplace_string<N> s;
+    for (int i = 0; i < 4; ++i) {
+        if (((mask >> i) & 1U) != 0) { s.push_back(static_cast<char>('b' + 2 * i)); } // b d f h
+    }
+    auto const& cs = s;
+    auto const c   = static_cast<char>('a' + keyi); // a .. i: below all, each element, between, above all
+    char const needle[3] = {c, static_cast<char>(c + 2), '\0'};
+    h.add(cs.find(c));
+    h.add(cs.find(c, cs.size()));
+    h.add(cs.rfind(c, cs.size()));
+    h.add(cs.find(needle));
+    h.add(cs.find_first_of(c));
+    h.add(cs.find_first_of(needle));
+    h.add(cs.find_first_not_of(c));
+    h.add(cs.find_last_of(c));
+    h.add(cs.find_last_of(needle));
+    h.add(cs.find_last_not_of(c));
+    h.add(cs.contains(c));
+    h.add(cs.contains(needle));
+    h.add(cs.starts_with(c));
+    h.add(cs.ends_with(c));
+    h.add(cs.ends_with(needle));
+    h.add(cs.compare(needle) < 0);
+    h.add(static_cast<unsigned char>(cs.data()[cs.size()]));
+    etl::string_view const sv{cs};
+    h.add(sv.find(c));
+    h.add(sv.rfind(c));
+    h.add(sv.find(etl::string_view{needle}));
+    h.add(sv.find_last_of(etl::string_view{needle}));
+    h.add(sv.find_last_not_of(c));
+    h.add(sv.ends_with(c));
+    auto const sub = cs.substr(cs.size());
+    h.add(sub.size());
+    return h.h;
+}
 } // namespace scen
     #define C13_RANGES(S, T) C13_FN1(scen_ranges_##S, "scenario.ranges_" #S, "scenario", Seed, true, kNoTag, scen::ranges<T>(x))
 C13_RANGES(i8, std::int8_t)
@@ -1487,6 +1805,24 @@ C13_RANGES(u32, std::uint32_t)
 C13_RANGES(i64, std::int64_t)
 C13_RANGES(u64, std::uint64_t)
 C13_RANGES(c16, char16_t)
+C13_FN1(scen_franges_f32, "scenario.franges_f32", "scenario", Seed, true, kNoTag, scen::franges<float>(x))
+C13_FN1(scen_franges_f64, "scenario.franges_f64", "scenario", Seed, true, kNoTag, scen::franges<double>(x))
+// (mask, key index): containers at every fill up to full capacity N (the mask must fit)
+    #define C13_PROBE(ID, NAME, N, ...) C13_FN2(ID, NAME, "container", unsigned, unsigned, (scen::mask_count(x) <= N && x < 16 && y < 9), kNoTag, __VA_ARGS__)
+    #define C13_SETS(N)                                                                                                                            \
+        C13_PROBE(flat_set_less_##N, "flat_set.less.cap" #N, N, scen::flat_probe<etl::flat_set<int, etl::static_vector<int, N>>>(x, y))               \
+        C13_PROBE(flat_set_void_##N, "flat_set.less_void.cap" #N, N, scen::flat_probe<etl::flat_set<int, etl::static_vector<int, N>, etl::less<>>>(x, y)) \
+        C13_PROBE(flat_set_greater_##N, "flat_set.greater.cap" #N, N, scen::flat_probe<etl::flat_set<int, etl::static_vector<int, N>, etl::greater<int>>>(x, y)) \
+        C13_PROBE(static_set_less_##N, "static_set.less.cap" #N, N, scen::set_probe<etl::static_set<int, N>>(x, y))                                 \
+        C13_PROBE(static_set_void_##N, "static_set.less_void.cap" #N, N, scen::set_probe<etl::static_set<int, N, etl::less<>>>(x, y))                \
+        C13_PROBE(static_set_greater_##N, "static_set.greater.cap" #N, N, scen::set_probe<etl::static_set<int, N, etl::greater<int>>>(x, y))         \
+        C13_PROBE(static_vector_##N, "static_vector.cap" #N, N, scen::vector_probe<N>(x, y))                                                        \
+        C13_PROBE(inplace_string_##N, "inplace_string.cap" #N, N, scen::string_probe<N>(x, y))
+C13_SETS(1)
+C13_SETS(2)
+C13_SETS(3)
+C13_SETS(4)
+C13_PROBE(sorted_array, "sorted_array", 4, scen::sorted_array_probe(x, y))
     #define C13_SCEN(F) C13_FN1(scen_##F, "scenario." #F, "scenario", Seed, true, kNoTag, scen::F(x))
 C13_SCEN(static_vector)
 C13_FN1(scen_inplace_string, "scenario.inplace_string", "scenario", Seed, true, (scen::inplace_string_impl(x, true) == 1 ? "string.erase.whole" : kNoTag), scen::inplace_string(x))
@@ -1501,7 +1837,7 @@ C13_SCEN(array_bitset)
 } // namespace c13
 
 #if !defined(C13_HAVE_PART) || !defined(C13_GEN_HEADER)
-    #error "compile with -DC13_PART_<CM64|CM32|CMLD|INT8|NUM8|W1632|W64|CSTR|SCEN> (one or more) and -DC13_GEN_HEADER=\"C13_gen_<part>.hpp\""
+    #error "compile with -DC13_PART_<CM64|CM32|CMLD|INT8|NUM8|W1632|W64|CSTR|WSTR|SCEN|CONT> (one or more) and -DC13_GEN_HEADER=\"C13_gen_<part>.hpp\""
 #endif
 #include C13_GEN_HEADER
 
@@ -1584,7 +1920,7 @@ void vf_run(vf::Ctx& c)
             vf::eval(s.sub);
             auto const cl = s.classes(k.a);
             label_classes(s, cl);
-            if ((cl & (kZero | kDenormal | kTie | kBig | kInfNan | kHighBit | kNegative | kTopBit)) != 0 || std::string_view(s.sub) == "scenario") {
+            if ((cl & (kZero | kDenormal | kTie | kBig | kInfNan | kHighBit | kNegative | kTopBit)) != 0 || std::string_view(s.sub) == "scenario" || std::string_view(s.sub) == "container") {
                 vf::nontrivial_count();
                 vf::sample(s.sub, [&] { return std::string(s.fname) + "(" + s.show_args(k.a) + ") = " + s.show_res(ct[i].v); });
             }
